@@ -629,3 +629,14 @@ func TestVfReplay_C11(t *testing.T) {
 		t.Fatalf("%s", vfFail("C11", "replay", sig, &c, "%s", msg))
 	}
 }
+
+func FuzzVf_C11(f *testing.F) {
+	f.Fuzz(rapid.MakeFuzz(func(t *rapid.T) {
+		c := vfGenBufCase(t)
+		if st, sig, msg := vfRunBufCase(c); sig != "" {
+			cc := *c
+			cc.Ops = cc.Ops[:st.executed]
+			t.Fatalf("%s", vfFail("C11", "buffer", sig, &cc, "%s", msg))
+		}
+	}))
+}
